@@ -253,7 +253,9 @@ def handleMut (j : Json) : Except String Verdict := do
   let src ← parseTObs (← field impl "src")
   let resJ ← field impl "res"
   let srcAuth := src.mt.shape.isSome
-  let tags0 := ["grow", if srcAuth then "src-auth" else "src-est", "nontrivial"]
+  let tags0 := ["grow", if srcAuth then "src-auth" else "src-est", "nontrivial"] ++
+    (if srcAuth then [] else
+      (src.rep.zipIdx).filterMap (fun q => if q.1 == Sx.n 0 then none else some s!"recorded-estimate@{q.2}"))
   if (optField resJ "err").isSome then
     return { agree := false, spec := false, tags := tags0 ++ ["mut-error"], why := "error" }
   let res ← parseTObs resJ
